@@ -214,8 +214,11 @@ class BaseAsyncIOLoop(IOLoop):
         # asyncio.call_at supports *args but not **kwargs, so bind them here.
         # We do not synchronize self.time and asyncio_loop.time, so
         # convert from absolute to relative.
+        # An overdue deadline is not clamped to "now": asyncio orders timers by
+        # their scheduled time, so clamping would run overdue timeouts in call
+        # order instead of deadline order.
         return self.asyncio_loop.call_later(
-            max(0, when - self.time()),
+            when - self.time(),
             self._run_callback,
             functools.partial(callback, *args, **kwargs),
         )
